@@ -26,7 +26,7 @@ func exec(op string) vlib.Res {
 		return vlib.Res{Impl: "bad-op"}
 	}
 	switch f[0] {
-	case "rw", "wg":
+	case "rw", "wg", "res", "burst":
 		return execLocal(op)
 	case "dedup", "sys":
 		if os.Getenv("C11_NOCHILD") != "" {
@@ -51,6 +51,10 @@ func execLocal(op string) vlib.Res {
 		return execDedup(f)
 	case "sys":
 		return execSys(f)
+	case "res":
+		return execRes(f)
+	case "burst":
+		return execBurst(f)
 	}
 	return vlib.Res{Impl: "bad-op"}
 }
